@@ -15,6 +15,7 @@ import (
 	"time"
 
 	ic "github.com/libp2p/go-libp2p/core/crypto"
+	"github.com/libp2p/go-libp2p/core/network"
 	"github.com/libp2p/go-libp2p/core/peer"
 	tpt "github.com/libp2p/go-libp2p/core/transport"
 	"github.com/libp2p/go-libp2p/internal/verifh"
@@ -145,5 +146,96 @@ func TestVerifC01Quic(t *testing.T) {
 				ln.Close()
 			}
 		}
+	}
+
+	// ---- tag 6: hole punching / simultaneous connect in the server role ------------------------
+	// We (A) listen; a peer with identity idQ lives at address X (it listens there and dials from
+	// that socket).  We Dial(X, P) with network.WithSimultaneousConnect(ctx, false, ...): the
+	// transport sends packets to X and waits for an inbound connection FROM X authenticated as P.
+	// where 0: the peer at X connects to us while the punch is in flight; where 1: a peer with
+	// identity P connects from another address instead.  Dial must fail or return P.
+	oldTimeout := HolePunchTimeout
+	HolePunchTimeout = 700 * time.Millisecond
+	defer func() { HolePunchTimeout = oldTimeout }()
+	for _, kt := range types {
+		us := newT(keys[kt][0])
+		lnUs, err := us.Listen(ma.StringCast("/ip4/127.0.0.1/udp/0/quic-v1"))
+		if err != nil {
+			t.Fatal(err)
+		}
+		acceptedUs := make(chan tpt.CapableConn, 16)
+		go func() {
+			for {
+				c, err := lnUs.Accept()
+				if err != nil {
+					return
+				}
+				acceptedUs <- c
+			}
+		}()
+		for idQ := 2; idQ <= 3; idQ++ {
+			for p := 2; p <= 3; p++ {
+				for where := 0; where <= 1; where++ {
+					if where == 1 && idQ != p {
+						continue
+					}
+					q := newT(keys[kt][idQ-1])
+					lnQ, err := q.Listen(ma.StringCast("/ip4/127.0.0.1/udp/0/quic-v1"))
+					if err != nil {
+						t.Fatal(err)
+					}
+					connector := q
+					if where == 1 {
+						connector = newT(keys[kt][p-1])
+					}
+					type res struct {
+						c   tpt.CapableConn
+						err error
+					}
+					punched := make(chan res, 1)
+					go func() {
+						ctx, cancel := context.WithTimeout(context.Background(), 5*time.Second)
+						defer cancel()
+						c, err := us.Dial(network.WithSimultaneousConnect(ctx, false, "c01"), lnQ.Multiaddr(), ids[kt][p-1])
+						punched <- res{c, err}
+					}()
+					time.Sleep(100 * time.Millisecond)
+					cctx, ccancel := context.WithTimeout(context.Background(), 5*time.Second)
+					cq, cerr := connector.Dial(cctx, lnUs.Multiaddr(), ids[kt][0])
+					ccancel()
+					if cerr != nil {
+						t.Fatalf("the peer could not connect to our listener: %v", cerr)
+					}
+					r := <-punched
+					line := []int64{6, int64(kt), int64(idQ), int64(p), int64(where)}
+					if r.err == nil {
+						rid, rk := observe(kt, r.c)
+						line = append(line, 1, rid, rk)
+						out.Cover("quic_holepunch_returned_conn")
+						if where == 0 && r.c.RemoteMultiaddr().Equal(lnQ.Multiaddr()) {
+							out.Cover("quic_holepunch_conn_from_punched_address")
+						}
+						r.c.Close()
+					} else {
+						line = append(line, 0, 0, 0)
+						out.Cover("quic_holepunch_failed")
+					}
+					// connections that did not go to the punch come out of Accept
+					select {
+					case ac := <-acceptedUs:
+						if where == 0 && ac.RemoteMultiaddr().Equal(lnQ.Multiaddr()) {
+							out.Cover("quic_holepunch_other_peer_connected_from_punched_address")
+						}
+						ac.Close()
+					default:
+					}
+					cq.Close()
+					lnQ.Close()
+					out.Case(line)
+					out.Cover("quic_holepunch_cases")
+				}
+			}
+		}
+		lnUs.Close()
 	}
 }
